@@ -59,10 +59,13 @@ class Atom(object):
 class Pattern(object):
     """atoms + group spans (half-open, in atom indices)."""
 
-    def __init__(self, atoms: List[Atom], groups: List[Tuple[int, int]], text: str = ""):
+    def __init__(self, atoms: List[Atom], groups: List[Tuple[int, int]], text: str = "", alts=None):
         self.atoms = atoms
         self.groups = groups
         self.text = text
+        # alternations (w1|w2|...) of equal-length words: the atoms carry the per-position union of the letters, and
+        # (lo, hi, words) records that atoms[lo:hi] must jointly spell one of the words (tuples of letter sets)
+        self.alts: List[Tuple[int, int, FrozenSet[tuple]]] = list(alts or [])
 
     # -- construction -------------------------------------------------------
 
@@ -70,6 +73,7 @@ class Pattern(object):
     def parse(cls, text: str, lm: LetterMap) -> "Pattern":
         atoms: List[Atom] = []
         groups: List[Tuple[int, int]] = []
+        alts = []
         open_at: Optional[int] = None
         i = 0
         while i < len(text):
@@ -79,6 +83,22 @@ class Pattern(object):
                     raise AnalysisError("nested group in pattern %r" % text)
                 if text[i + 1 : i + 2] == "?":
                     raise AnalysisError("unsupported group syntax in pattern %r" % text)
+                close = text.find(")", i)
+                body = text[i + 1 : close] if close > 0 else ""
+                if "|" in body:
+                    # a group that is an alternation of equal-length words
+                    words = body.split("|")
+                    if not all(w and w.isalpha() for w in words) or len({len(w) for w in words}) != 1:
+                        raise AnalysisError("unsupported alternation %r in pattern %r (only equal-length words)" % (body, text))
+                    lo = len(atoms)
+                    width = len(words[0])
+                    for k in range(width):
+                        u = frozenset().union(*[lm.letters(w[k]) for w in words])
+                        atoms.append(Atom("[%s]" % "".join(sorted(u)) if len(u) > 1 else next(iter(u)), u, "1"))
+                    alts.append((lo, lo + width, frozenset(tuple(lm.letters(ch) for ch in w) for w in words)))
+                    groups.append((lo, lo + width))
+                    i = close + 1
+                    continue
                 open_at = len(atoms)
                 i += 1
                 continue
@@ -104,7 +124,7 @@ class Pattern(object):
             i += 1
         if open_at is not None:
             raise AnalysisError("unbalanced '(' in pattern %r" % text)
-        return cls(atoms, groups, text)
+        return cls(atoms, groups, text, alts)
 
     # -- segments -----------------------------------------------------------
 
@@ -189,6 +209,16 @@ class Pattern(object):
                 else:
                     runs.append([s, 1 if a.fixed else 0, not a.fixed])
             out.append(tuple((r[0], r[1], r[2]) for r in runs))
+        if self.alts:
+            bounds = [0] + [b for _, b in self.groups]
+            segstart = {0: 0, 1: self.groups[0][0], 2: self.groups[1][0], 3: self.groups[2][0], 4: self.groups[2][1]}
+            cons = []
+            for lo, hi, words in self.alts:
+                si = max(k for k, st in segstart.items() if st <= lo)
+                if erase_overhangs and si in (1, 3):
+                    continue
+                cons.append((si, lo - segstart[si], hi - lo, tuple(sorted(tuple(tuple(sorted(x)) for x in w) for w in words))))
+            out.append(tuple(sorted(cons)))
         return tuple(out)
 
     def revcomp(self, comp) -> "Pattern":
@@ -196,7 +226,9 @@ class Pattern(object):
         n = len(self.atoms)
         atoms = [Atom(a.ch, frozenset(comp(x) for x in a.set), a.q) for a in reversed(self.atoms)]
         groups = sorted((n - b, n - a) for (a, b) in self.groups)
-        return Pattern(atoms, groups, "revcomp(%s)" % self.text)
+        alts = [(n - hi, n - lo, frozenset(tuple(frozenset(comp(x) for x in st) for st in reversed(w)) for w in words))
+                for lo, hi, words in self.alts]
+        return Pattern(atoms, groups, "revcomp(%s)" % self.text, alts)
 
     def show(self) -> str:
         out = []
@@ -255,7 +287,24 @@ def split_one_run(atoms: Sequence[Atom]) -> Tuple[List[Atom], Atom, List[Atom]]:
     return list(atoms[:i]), atoms[i], list(atoms[i + 1 :])
 
 
-def includes(preA: List[Atom], v: int, postA: List[Atom], headB: List[Atom], tailB: List[Atom], n_ok=None):
+def _window_ok(A_sets: List[Optional[FrozenSet[str]]], words) -> bool:
+    """every string of the product of A's letter sets under the window spells one of the words (None: A is arbitrary there)"""
+    if any(s_ is None for s_ in A_sets):
+        return False
+    import itertools
+
+    size = 1
+    for s_ in A_sets:
+        size *= len(s_)
+    if size > 4096:
+        return False
+    for combo in itertools.product(*[sorted(s_) for s_ in A_sets]):
+        if not any(all(ch in st for ch, st in zip(combo, w)) for w in words):
+            return False
+    return True
+
+
+def includes(preA: List[Atom], v: int, postA: List[Atom], headB: List[Atom], tailB: List[Atom], n_ok=None, alts_head=(), alts_tail=()):
     """All alignments (delta, eps) proving
     ``preA . N{v,} . postA``  subset of  ``Sigma* headB N* tailB Sigma*``.
 
@@ -288,6 +337,11 @@ def includes(preA: List[Atom], v: int, postA: List[Atom], headB: List[Atom], tai
                 if not b.is_n:
                     ok = False
                     break
+        for lo, hi, words in alts_head:
+            # B demands one of a few words over headB[lo:hi]
+            sets = [preA[start + j].set if start + j < len(preA) else None for j in range(lo, hi)]
+            if not _window_ok(sets, words):
+                ok = False
         if not ok:
             continue
         for eps in range(-len(postA), v + 1):
@@ -307,6 +361,10 @@ def includes(preA: List[Atom], v: int, postA: List[Atom], headB: List[Atom], tai
                     if not (postA[pos].set <= b.set):
                         ok2 = False
                         break
+            for lo, hi, words in alts_tail:
+                sets = [postA[-eps + j].set if -eps + j >= 0 else None for j in range(lo, hi)]
+                if not _window_ok(sets, words):
+                    ok2 = False
             if ok2:
                 res.append((delta, eps))
     return res
